@@ -98,6 +98,21 @@ def finding_probes():
         rep = True
     out.append(("roundtrip:omitted-bytes-default", rep,
                 "schemaless_writer(fo, record{b: bytes default '\\u00ff'}, {}) must write the default"))
+    # regression probe for a repaired defect (not listed as known: if it comes back it is a violation)
+    tup = {"type": "record", "name": "R0", "fields": [{"name": "f3", "type": ["null", {"type": "record", "name": "R1", "fields": [
+        {"name": "f0", "type": {"type": "array", "items": "null"}}]}, {"type": "record", "name": "R2", "fields": [{"name": "f0", "type": ["boolean"]}]}]}]}
+    rep3 = False
+    for dt in ({"f3": {"f0": ()}}, {"f3": {"f0": (None, None, None)}}):
+        try:
+            fo = io.BytesIO()
+            F.schemaless_writer(fo, tup, dt)
+            fo.seek(0)
+            if F.schemaless_reader(fo, tup) != {"f3": {"f0": list(dt["f3"]["f0"])}}:
+                rep3 = True
+        except Exception:  # noqa
+            rep3 = True
+    out.append(("roundtrip:tuple-array-unpacked-as-hint", rep3,
+                "a tuple of length != 2 used as an array value below a union must be written as a sequence"))
     # a mapping datum that conforms to a record branch AND (because validation ignores extra keys) to a
     # later map branch is written under the map branch and loses keys
     u = [{"type": "record", "name": "R0", "fields": [{"name": "f0", "type": {"type": "map", "values": "null"}, "default": {}}]},
